@@ -13,6 +13,7 @@
 #include <string>
 #include <vector>
 #include <unistd.h>
+#include <signal.h>
 #include "hexasm.hpp"
 extern "C" {
 #include "isa.h"
@@ -112,6 +113,14 @@ static Verdict validate(const std::string &source) {
   return v;
 }
 
+// watchdog: "assembly terminates" -- a program the assembler is still working on after 20 s is reported as failing
+static std::string g_current; static long g_done = 0;
+static void onAlarm(int) {
+  std::string esc = jsonEscape(g_current);
+  printf("{\"programs\": %ld, \"accepted\": 0, \"rejected\": 0, \"bad_layout_or_reference\": 1, \"bad_listing_only\": 0, \"why_c05\": \"assembler did not terminate within 20 s\", \"first_c05\": \"%s\", \"why_c17\": \"\", \"first_c17\": \"\"}\n", g_done, esc.c_str());
+  fflush(stdout); _exit(0);
+}
+
 static const char *REL[] = {"BR", "BRZ", "BRN", "LDAP", "LDAI", "LDBI", "STAI"};
 static const char *ABS[] = {"LDAM", "LDBM", "STAM", "LDAC", "LDBC"};
 
@@ -143,10 +152,13 @@ int main(int argc, char **argv) {
   }
   if (argc >= 4 && !strcmp(argv[1], "sweep")) {
     std::mt19937_64 rng(strtoull(argv[2], 0, 10)); long n = atol(argv[3]); bool big = argc > 4;
+    signal(SIGALRM, onAlarm);
     long accepted = 0, rejected = 0, bad5 = 0, bad17 = 0; std::string first5, first17, why5, why17;
     for (long it = 0; it < n; it++) {
       std::string src = genProgram(rng, big);
+      g_current = src; g_done = it; alarm(20);
       Verdict v = validate(src);
+      alarm(0);
       if (!v.accepted) { rejected++; continue; }
       accepted++;
       if (!v.ok) { if (v.c05 == 1) { if (!bad5) { first5 = src; why5 = v.why; } bad5++; } else { if (!bad17) { first17 = src; why17 = v.why; } bad17++; } }
